@@ -130,6 +130,9 @@ func parseContractFile(path, pkgPath string) ([]*Contract, []*SpecFn, error) {
 			if len(head) > 1 && head[1] == "fresh" {
 				sf.Lemma = true // reused flag: reference results are freshly allocated
 			}
+			if len(head) > 1 && head[1] == "old" {
+				sf.PTypes = []string{"old"} // reference results denote objects that existed before the call
+			}
 			if len(head) > 1 && head[1] == "pure" {
 				sf.PTypes = []string{"pure"} // reused field: the result is a function of receiver and arguments
 			}
